@@ -181,10 +181,7 @@ def family(ctx):
             cnat(inst["xr"]), cbool(inst["miss"] != "bias_input")))
         cases.append(f"({lit}, {cbool(did)})")
         meta.append(inst)
-    ok, di, df, raw = U.two_index_lists(ctx, ["OV.Rules.HardSwish"], "From Coq Require Import QArith.\n"
-                                        f"Definition cases : list hs_case := {clist(cases)}.\nDefinition fcases : list fs_case := {clist(fs_cases)}.\n"
-                                        "Definition dis_impl := hs_dis false cases.\nDefinition dis_fixed := hs_dis true cases.\n"
-                                        "Definition dis_fs := fs_dis fcases.")
+    ok, di, df, raw = U.eval_cases(ctx, ["OV.Rules.HardSwish"], "hs_case", cases, "hs_dis", prelude="From Coq Require Import QArith.\n", chunk=500)
     if not ok:
         ctx.tie_broken("correspondence", f"{FAM}:model-evaluation", raw[-800:])
         return
